@@ -29,6 +29,7 @@ def handle (line : String) : String :=
     | "sni" :: rest => Sni.driverLine rest obs
     | "sniff" :: rest => Sniff.driverLine rest obs
     | "eb" :: rest => Eyeballs.driverLine rest obs
+    | "tcpc" :: rest => Eyeballs.tcpcLine rest obs
     | "to" :: rest => Timeout.driverLine rest obs
     | "wire" :: rest => Wire.driverLine rest obs
     | "st" :: rest => Streams.driverLine rest obs
